@@ -25,6 +25,26 @@ def D16():
     layer(torch.ones(1, 3))  # raises AttributeError: the eligibility monitor reads a collected entry
 
 
+def D22():
+    """SpikeRefractoryMixin.spike is `refrac == refrac_t`: with refrac_t = 0 every non-refractory neuron reports spike=True
+    although forward returned no spike (C03); a RecurrentSerial built from such neurons drives its lateral connection with
+    all-True "spikes" on silent input (C17)"""
+    from inferno.neural import LIF, DeltaCurrent, LinearDense, RecurrentSerial
+
+    mk = lambda: LIF((2,), 1.0, rest_v=-60.0, reset_v=-65.0, thresh_v=-55.0, refrac_t=0.0, time_constant=10.0, resistance=1.0)  # noqa: E731
+    n = mk()
+    out = n(torch.zeros(1, 2))
+    c03 = bool(n.spike.any()) and not bool(out.any())
+    mc = lambda i: LinearDense((i,), (2,), 1.0, synapse=DeltaCurrent.partialconstructor(20.0))  # noqa: E731
+    cff, clat, cfb, nff, nfb = mc(3), mc(2), mc(2), mk(), mk()
+    lay = RecurrentSerial(cff, clat, cfb, nff, nfb)
+    seen = []
+    clat.register_forward_pre_hook(lambda m, a: seen.append(a[0].clone()))
+    ff, _fb = lay(torch.zeros(1, 3))
+    c17 = bool(seen[-1].any()) and not bool(ff.any())
+    assert not (c03 or c17), f"spike attribute True without a spike (C03: {c03}); lateral connection of RecurrentSerial driven by it (C17: {c17})"
+
+
 if __name__ == "__main__":
     names = sys.argv[1:] or [k for k in sorted(globals()) if k.startswith("D") and k[1:].isdigit()]
     for n in names:
